@@ -45,7 +45,8 @@ import nonblocking as nb_tr  # noqa: E402
 REQ = ("From Coq Require Import List NArith Bool.\nImport ListNotations.\n"
        "From TV Require Import Appender.NonBlockingModel Appender.NonBlockingDrive.\nLocal Open Scope N_scope.")
 
-OPS = {"P": "KP", "C": "KC", "W": "KW", "Wp": "KWp", "G": "KG", "T": "KT", "O": "KO", "H": "KH"}
+# "Gp": the guard dropped by a contained panic (unwinding) - the model knows one way of dropping the guard
+OPS = {"P": "KP", "C": "KC", "W": "KW", "Wp": "KWp", "G": "KG", "Gp": "KG", "T": "KT", "O": "KO", "H": "KH"}
 
 
 # ------------------------------------------------------------------------------------------------------------------
@@ -71,6 +72,8 @@ def epilogue(nprod, total, cap):
 
 
 def mk_case(rng, cap, lossy, progs, faults, cmds, tag):
+    if rng.random() < 0.4:
+        cmds = [["Gp"] if k == ["G"] else k for k in cmds]   # the guard goes by a contained panic
     lines = {}
     for p in progs:
         for lid in p:
@@ -359,7 +362,7 @@ def oracle(case, cmds, o, timeouts=None):
     if not lossy and o["dropped"] != 0:
         v.append(("non-lossy mode: dropped_lines() = %d" % o["dropped"], None))
     # -- the queue never holds more than its capacity (producers wait / lines are dropped instead)
-    g_at = next((i for i, k in enumerate(cmds) if k[0] == "G" and i < len(snaps) and snaps[i][0] == 1), None)
+    g_at = next((i for i, k in enumerate(cmds) if k[0] in ("G", "Gp") and i < len(snaps) and snaps[i][0] == 1), None)
     for i, s in enumerate(snaps):
         acc = sum(1 for h in hist[:s[6]] if h[2] == 1)
         wr = sum(1 for e in log[:s[3]] if e[0] == 1)
@@ -462,7 +465,7 @@ def nontrivial_key(case, cmds, o):
     fault = any(e[2] == 0 for e in o["log"])
     gq = False
     for i, (s, k) in enumerate(zip(o["snaps"], cmds)):
-        if k[0] == "G" and s[0] == 1 and i > 0:
+        if k[0] in ("G", "Gp") and s[0] == 1 and i > 0:
             p = o["snaps"][i - 1]
             acc = sum(1 for h in o["hist"][:p[6]] if h[2] == 1)
             wr = sum(1 for e in o["log"][:p[3]] if e[0] == 1)
